@@ -281,7 +281,7 @@ pub fn run(ctx: &Ctx) -> Outcome {
         }
     }
     if want("random") {
-        let (lo, hi) = range(ctx.tier.pick(60_000, 2_000_000));
+        let (lo, hi) = range(ctx.tier.pick(150_000, 2_000_000));
         run_cases(&mut acc, "random", hi - lo, |i| {
             let i = i + lo;
             let mut rng = Rng::derive(seed, "c09-random", i);
